@@ -114,6 +114,7 @@ pub fn h_c14_between(inp: &Inp) -> u8 {
     if !i.ok {
         return 2;
     }
+    vtrace!("a = {:?}  b = {:?}  marker = {}", a, b, m);
     let ord = a.cmp(&b);
     // one-sided
     let above = Id::between(Some(&a), None, m);
